@@ -3,6 +3,7 @@ package multidb
 import (
 	"errors"
 	"fmt"
+	"sort"
 	"strings"
 
 	"github.com/Fantom-foundation/lachesis-base/kvdb"
@@ -39,12 +40,17 @@ func NewProducer(producers map[TypeName]kvdb.FullDBProducer, routingTable map[st
 		}
 
 		routingFmt = append(routingFmt, scanfRoute{
+			Req:    req,
 			Name:   fn,
 			Type:   route.Type,
 			Table:  route.Table,
 			NoDrop: route.NoDrop,
 		})
 	}
+	// try the patterns in a fixed order, so that routing doesn't depend on the map iteration order
+	sort.Slice(routingFmt, func(i, j int) bool {
+		return routingFmt[i].Req < routingFmt[j].Req
+	})
 	return &Producer{
 		usedProducers:   used,
 		allProducers:    producers,
